@@ -288,7 +288,7 @@ def gen_spec(rng, idx, small=False):
     spec = {
         "id": idx,
         "time": {"pattern_timestep": step, "pattern_start": pstart, "interp": interp, "hydraulic_timestep": hstep,
-                 "report_timestep": hstep, "duration": hstep * rng.choice([0, 3, 5, 8])},
+                 "report_timestep": hstep * rng.choice([1, 1, 2]), "duration": hstep * rng.choice([0, 4, 6, 8])},
         "dm": rng.choice([1.0, 1.0, 0.5, 1.3, 2.0]),
         "default_pattern": rng.choice(["keep", "keep", None] + pnames),
         "patterns": pats, "junctions": juncs, "reservoirs": res, "tanks": tanks, "pipes": pipes, "pumps": pumps, "valves": valves,
@@ -503,6 +503,8 @@ class C20(Check):
         # ---- expected_demand: default arguments and an explicit window, a few categories
         variants = [(None, None, None, None)]
         variants.append((rng.choice([0, step, 2 * step + 7]), None, rng.choice([step, 2 * step, 777]), rng.choice(CATS_TRY)))
+        for pt in spec.get("probe_times", []):
+            variants.append((pt, None, step, None))
         for (st, en, tsx, cat) in variants:
             try:
                 kw = {}
@@ -914,6 +916,7 @@ class C20(Check):
                 ctx.case(("pat", len(mults), step, wrap, interp, t), len(mults) >= 2)
                 ctx.count("pattern_at_%s%s" % ("wrap" if wrap else "nowrap", "_interp" if interp else ""))
                 if not close(impl, parse_rat(o), scale=max([1.0] + [abs(m) for m in mults]) * (abs(t) / step + 2)):
+                    self._probe_fail.append((mults, step, wrap, interp, t))
                     self._broken.append(Broken("correspondence", "Pattern.at vs Model/Pattern.lean",
                                                "mults=%r step=%d wrap=%s interp=%s t=%d impl=%r model=%s" % (mults, step, wrap, interp, t, impl, o)))
 
@@ -926,6 +929,7 @@ class C20(Check):
         vlib.import_wntr()
         fails = []
         self._broken = []
+        self._probe_fail = []
         reqs = Reqs()
         for fn, item in vlib.corpus_items("C20"):
             self.run_spec(ctx, item["spec"], reqs, fails, with_sim=True, label="corpus:" + fn)
@@ -943,16 +947,33 @@ class C20(Check):
                 ctx.sample({"network": {k: spec[k] for k in ("time", "dm", "patterns")}, "junction0": spec["junctions"][0]})
         reqs.run()
         ctx.cov["driver_requests"] = len(reqs.lines)
+        if self._probe_fail:  # turn a Pattern.at disagreement into a concrete expected_demand failure right away
+            r2 = Reqs()
+            self.probe_followup(ctx, r2, fails)
+            r2.run()
         # smallest failing network first for each key
         fails.sort(key=lambda f: len(json.dumps(f.replay.get("spec", {}))))
         return fails, self._broken
+
+    def probe_followup(self, ctx, reqs, fails):
+        # a Pattern.at disagreement: put that very pattern on a junction and ask expected_demand for that time
+        for k, (mults, step, wrap, interp, t) in enumerate(getattr(self, "_probe_fail", [])[:8]):
+            if step < 1:
+                continue
+            spec = {"id": "probe%d" % k,
+                    "time": {"pattern_timestep": step, "pattern_start": 0, "interp": interp, "hydraulic_timestep": 3600, "report_timestep": 3600, "duration": 0},
+                    "dm": 1.0, "default_pattern": "keep", "patterns": [{"name": "PA", "mults": mults, "wrap": wrap}],
+                    "junctions": [{"name": "J0", "elev": 0.0, "demands": [[1.0, "PA", None]]}], "reservoirs": [{"name": "R0", "head": 50.0}],
+                    "tanks": [], "pipes": [{"name": "P0", "a": "R0", "b": "J0", "length": 100.0, "diam": 0.3048, "rough": 100}], "pumps": [], "valves": [],
+                    "energy": {"eff": 75, "price": 0, "pump_price": None}, "probe_times": [t]}
+            self.run_spec(ctx, spec, reqs, fails, with_sim=False, label="probe%d" % k)
 
     def search(self, ctx, broken):
         """a proof / translator / correspondence broke and the seeded run found nothing: widen the generator"""
         fails = []
         self._broken = []
         reqs = Reqs()
-        rng_state = ctx.rng.getstate()
+        self.probe_followup(ctx, reqs, fails)
         for i in range(150 if ctx.quick else 600):
             self.run_spec(ctx, gen_spec(ctx.rng, 10000 + i, small=(i % 2 == 0)), reqs, fails, with_sim=(i % 4 == 0))
         reqs.run()
